@@ -15,25 +15,38 @@ def getRewardAge (pool : Pool) : TxM Nat := do
   if q ≤ 0 then throw "log2 of zero"
   pure (Nat.log2 q.toNat)
 
+/-- the block reward for this age, capped by the APY formula while the pledge total is below the baseline -/
+def cappedReward (pool : Pool) (p : NodeParams) (subsidy : Int) : TxM (Option Int) :=
+  if pool.totalPledged < p.baseline then
+    if !p.apyOk then pure none
+    else if p.halvingPeriod / 2 = 0 then throw "division by zero"
+    else
+      let r := Dec.truncate (Dec.quoInt (Dec.mul (Dec.ofInt pool.totalPledged) p.apy) (p.halvingPeriod / 2))
+      if r < subsidy then
+        if r < 0 then throw "negative coin" else pure (some r)
+      else pure (some subsidy)
+  else pure (some subsidy)
+
+/-- how many coins this block mints (`none` = none): the configured reward for the current
+    halving age, capped by the APY formula while the total pledge is below the baseline -/
+def mintAmount (pool : Pool) (p : NodeParams) : TxM (Option Int) :=
+  if pool.totalPledged = 0 then pure none
+  else if p.blockReward = 0 then pure none
+  else
+    match getRewardAge pool with
+    | .error m => throw m
+    | .ok age =>
+      if p.blockReward < 0 then throw "negative coin"
+      else
+        match cappedReward pool p ((p.blockReward.toNat >>> age : Nat) : Int) with
+        | .error m => throw m
+        | .ok none => pure none
+        | .ok (some r) => if r = 0 then pure none else pure (some r)
+
 def nodeBeginBlock (e : Env) (s : State) : TxM State := do
   let some pool := s.pool | return s
-  if pool.totalPledged = 0 then return s
   let p := s.params
-  if p.blockReward = 0 then return s
-  let age ← getRewardAge pool
-  let subsidy : Int := (p.blockReward.toNat >>> age : Nat)
-  if p.blockReward < 0 then throw "negative coin"
-  let reward? : Option Int ← (if pool.totalPledged < p.baseline then
-      if !p.apyOk then pure none
-      else if p.halvingPeriod / 2 = 0 then throw "division by zero"
-      else
-        let r := Dec.truncate (Dec.quoInt (Dec.mul (Dec.ofInt pool.totalPledged) p.apy) (p.halvingPeriod / 2))
-        if r < subsidy then
-          if r < 0 then throw "negative coin" else pure (some r)
-        else pure (some subsidy)
-    else pure (some subsidy) : TxM (Option Int))
-  let some reward := reward? | return s
-  if reward = 0 then return s
+  let some reward ← mintAmount pool p | return s
   let pool := if pool.nextRewardPerBlock = 0 then { pool with nextRewardPerBlock := Dec.ofInt reward } else pool
   if p.adjustmentPeriod = 0 then throw "division by zero"
   let pool := if Int.tmod s.h p.adjustmentPeriod = 0 then
